@@ -12,6 +12,7 @@ var checks = map[string]func(*Ctx){
 	"C04": runC04,
 	"C05": runC05,
 	"C06": runC06,
+	"C07": runC07,
 	"C08": runC08,
 	"C09": runC09,
 	"C10": runC10,
